@@ -72,14 +72,38 @@ CHECK = Check(
         "generated wrappers hand each kernel freshly allocated zero-initialised outputs (early-return branches rely on it; "
         "the correspondence runs go through the real wrappers)",
         "oracle for the failing-input search: the identities recomputed in Go on the implementation's outputs",
+        "models/functions/baseflow.go (an anchored file) has an EMPTY kernel body: baseflowFilter's loop only sets the index, both outputs "
+        "(quickflow, baseflow) stay as allocated (zero). The property text states no identity for it, so there is NO theorem about "
+        "BaseflowFilter; the Lean model (OW/Kernels/C16/Conversions.lean, outputs = zeros) is tied by the bit-exact K correspondence "
+        "and the regenerated tie only",
     ],
     assumptions=[
         "rounded theorems (OW.Props.Rounded.C16): 0 <= fraction <= 1 and non-negative input for the partition bounds (Rep 1 only for output2 <= input and proportion <= 1); the sum identities out1+out2 = input and the exact linear forms are exact-arithmetic only; OW.Props.Rounded.C16Sediment: BankErosion / gully / USLE non-negativity with Rep 100 and, for BankErosion, the computed fine fraction soilPercentFine*0.01 <= 1 (true in binary64 for every percentage <= 100 because fl(100*fl(0.01)) = 1.0; not a consequence of monotone rounding since fl(0.01) > 0.01)",
         "input series of one call have equal length (guaranteed by the 3-d input array)",
-        "time steps and areas used as divisors are positive where a theorem divides by them",
+        "time steps and areas used as divisors are positive where a theorem divides by them — INCLUDING the zero-driver theorems "
+        "(bankErosion_zero_driver, bankErosion_spec, usle_zero_driver, usle_spec, gullyOrig_zero_supply, gullyDerm_zero_supply, gully_spec): "
+        "the kernels compute the zero load as 0/Δt, which is NaN in float64 (Go and the compiled model) for Δt = 0; that case is stated "
+        "separately over ℝ as 'a quotient with zero numerator' (bankErosion_zero_driver_dt0, usle_zero_driver_dt0). gully_delivered needs no "
+        "time-step hypothesis (it relates two outputs of one evaluation)",
+        "usle_fine_fraction / usle_spec: 0 <= maxConc (for maxConc < 0 the cap branch can divide by a zero current fine mass: "
+        "usle_cap_divisor_pos proves the divisors positive under the hypothesis)",
+        "gullyOrig_zero_supply (and its clause in gully_spec): quickflow >= 0 (math.Pow of a negative flow with a fractional power is NaN, "
+        "NaN*0 is not 0); gullyDerm_zero_supply: area > 0",
+        "gully models, clause 'fine + coarse material split by the model's fine fraction': proved for years <= GullyEndYear "
+        "(gully_fine_fraction, gully_spec: generatedFine + generatedCoarse = G, split pf : 1-pf). For years > GullyEndYear the code multiplies "
+        "only the fine part by averageGullyActivityFactor and the clause is FALSE whenever that factor != 1: proved "
+        "(gully_fine_fraction_after_end_year_counterexample, fine share 3/4 for GullyPercentFine = 60), evaluated by the Go oracle under the "
+        "scopes DynamicSednetGully(Alt):fine-fraction-after-end-year and recorded as known findings KF-C16-gully-activity-factor(-alt) "
+        "(printed as KNOWN-FINDING on every run); what is proved there is the code's actual split G*pf*activity : G*(1-pf)",
         "rating-curve partition: statements hold whenever the kernel returns; it returns for every input inside the "
         "table range (>= 2 rows, end points included) and panics outside it / for 0- or 1-row tables",
         "non-negativity theorems: non-negative inputs and parameters (plus KLSC_Fine <= KLSC, percentages <= 100 where used)",
+    ],
+    partial=[
+        "gully_fine_fraction / gully_spec: the fine-fraction clause is proved only for years <= GullyEndYear; after the end year it is false "
+        "for the code when averageGullyActivityFactor != 1 (gully_fine_fraction_after_end_year_counterexample; known findings "
+        "KF-C16-gully-activity-factor, KF-C16-gully-activity-factor-alt)",
+        "BaseflowFilter (models/functions/baseflow.go): empty kernel body, no theorem (nothing is claimed about it)",
     ],
 )
 
